@@ -43,7 +43,7 @@ func patchOverlay(repo, patchFile string) (map[string][]byte, error) {
 			return nil, err
 		}
 	}
-	cmd := exec.Command("patch", "-p1", "-s", "-f", "--no-backup-if-mismatch", "-d", tmp, "-i", patchFile)
+	cmd := exec.Command("patch", "-p1", "-s", "-f", "-F0", "--no-backup-if-mismatch", "-d", tmp, "-i", patchFile)
 	var out bytes.Buffer
 	cmd.Stdout, cmd.Stderr = &out, &out
 	if err := cmd.Run(); err != nil {
@@ -173,6 +173,8 @@ func runFixtures(c *Ctx, spec *propSpec) {
 				}
 			case 3:
 				fr.Got = "stale (the patch no longer applies to the tree)"
+			case 4:
+				fr.Got = "stale (with the patch applied the tree no longer type-checks: the tree has changed under the control)"
 			default:
 				fr.Got = fmt.Sprintf("error (exit %d)", code)
 			}
